@@ -191,13 +191,20 @@ func (g *G) scalarSchemaType() {
 }
 
 func (g *G) intValueLit() {
-	switch g.alt(3) {
+	switch g.alt(4) {
 	case 0:
 		g.num("10")
 	case 1:
 		g.num("0x10")
 	case 2:
 		g.param()
+	case 3:
+		g.kw("CAST")
+		g.p("(")
+		g.num("10")
+		g.kw("AS")
+		g.pk("INT64")
+		g.p(")")
 	}
 }
 
